@@ -74,21 +74,6 @@ func checkOperands(t *vlib.T, tag string, ops []*operand) {
 func judge(t *vlib.T, v *verdict, tag, state string, ops []*operand, do func(), check func() string) {
 	v.calls++
 	panicked, pv := mustPanic(do)
-	for _, o := range ops {
-		if o != nil && o.kind == "VecRawLong" && state != "wrong" {
-			// triaged: unit-increment fast paths hand the raw data slice (longer than N) to kernels that
-			// range over it; which methods are affected depends on the build (assembly or pure Go kernels).
-			if panicked {
-				failClass(t, "vecdense-unit-fastpath-uses-raw-data-length", "%s: panic %s (operand set with SetRawVector, len(Data) > N)", tag, panicString(pv))
-			} else if msg := check(); msg != "" {
-				failClass(t, "vecdense-unit-fastpath-uses-raw-data-length", "%s: %s", tag, msg)
-			} else {
-				v.add("ok")
-			}
-			checkOperands(t, tag, ops)
-			return
-		}
-	}
 	if state == "wrong" {
 		if !panicked {
 			failClass(t, "wrong-shaped-receiver-accepted", "%s: a non-empty receiver of the wrong shape was accepted without panic", tag)
